@@ -10,6 +10,131 @@ CONT = "solve::cont::ContinuousOutput::"
 METHODS = {"rk4": "RK4", "rk23": "RK23", "dopri5": "DOPRI5", "dop853": "DOP853", "radau": "RADAU", "bdf": "BDF"}
 
 
+class _NoEval(Exception):
+    pass
+
+
+class NumEval:
+    """Evaluates a small pure f64/bool expression at model points (finite abstract evaluation: the expressions handled
+    here touch their inputs only through +, -, min, max, abs and comparisons, so a handful of representative points covers
+    every ordering of the inputs). Locals are resolved through their (single) `let`; leaves get model values from `leaf`."""
+
+    def __init__(self, fn_body, leaf):
+        self.body = fn_body
+        self.leaf = leaf      # fn(node) -> float | None
+
+    def let_of(self, vid):
+        """defining expression of a local: plain let, or element j of a tuple let with a tuple initialiser"""
+        for l in tast.find(self.body, lambda z: z.get("k") == "Let" and z.get("init") is not None):
+            pt = l["pat"]
+            if pt.get("k") == "PBind" and pt.get("id") == vid:
+                return l["init"]
+            if pt.get("k") == "PTuple" and l["init"].get("k") == "Tuple":
+                for j, q in enumerate(pt["pats"]):
+                    if q.get("k") == "PBind" and q.get("id") == vid and j < len(l["init"]["elems"]):
+                        return l["init"]["elems"][j]
+        return None
+
+    def ev(self, e, depth=0):
+        if e is None or depth > 40:
+            raise _NoEval("depth")
+        v = self.leaf(e)
+        if v is not None:
+            return v
+        k = e.get("k")
+        if k in ("Cast", "AddrOf", "DropTemps"):
+            return self.ev(e["e"], depth + 1)
+        if k == "Unary":
+            x = self.ev(e["e"], depth + 1)
+            if e["op"] == "Deref":
+                return x
+            if e["op"] == "Neg":
+                return -x
+            if e["op"] == "Not":
+                return not x
+        if k == "Lit":
+            if e.get("lk") in ("Float", "Int"):
+                return float(e["v"])
+            if e.get("lk") == "Bool":
+                return bool(e["v"])
+        if k == "Path" and e.get("res") == "local":
+            init = self.let_of(e["id"])
+            if init is None:
+                raise _NoEval("local %s" % e.get("name"))
+            return self.ev(init, depth + 1)
+        if k == "Block" and not e.get("stmts"):
+            return self.ev(e.get("tail") if e.get("tail") is not None else e.get("expr"), depth + 1)
+        if k == "Binary":
+            op = e["op"]
+            l = self.ev(e["l"], depth + 1)
+            if op == "And":
+                return bool(l) and bool(self.ev(e["r"], depth + 1))
+            if op == "Or":
+                return bool(l) or bool(self.ev(e["r"], depth + 1))
+            r = self.ev(e["r"], depth + 1)
+            table = {"Add": lambda: l + r, "Sub": lambda: l - r, "Mul": lambda: l * r, "Lt": lambda: l < r, "Le": lambda: l <= r,
+                     "Gt": lambda: l > r, "Ge": lambda: l >= r, "Eq": lambda: l == r, "Ne": lambda: l != r}
+            if op in table:
+                return table[op]()
+        if k == "MethodCall":
+            nm = e.get("name")
+            if nm in ("min", "max") and len(e["args"]) == 1:
+                x, y = self.ev(e["recv"], depth + 1), self.ev(e["args"][0], depth + 1)
+                return min(x, y) if nm == "min" else max(x, y)
+            if nm == "abs" and not e["args"]:
+                return abs(self.ev(e["recv"], depth + 1))
+            if nm == "contains" and len(e["args"]) == 1 and e["recv"].get("k") in ("Struct", "Call"):
+                rg = e["recv"]
+                fl = {x["name"]: x["e"] for x in rg.get("fields", [])} if rg.get("k") == "Struct" else {}
+                args = rg.get("args", [])
+                lo = self.ev(fl.get("start") or (args[0] if args else None), depth + 1)
+                hi = self.ev(fl.get("end") or (args[1] if len(args) > 1 else None), depth + 1)
+                x = self.ev(e["args"][0], depth + 1)
+                incl = "Inclusive" in (rg.get("def") or "")
+                return lo <= x <= hi if incl else lo <= x < hi
+        raise _NoEval("node %s" % k)
+
+
+def _span_roles(fn_body):
+    """locals bound by a tuple `let (a, b) = <call>` (the span ends as delivered by t_span()): id -> 0 | 1"""
+    roles = {}
+    for l in tast.find(fn_body, lambda z: z.get("k") == "Let" and z.get("init") is not None and z["pat"].get("k") == "PTuple" and z["init"].get("k") != "Tuple"):
+        ps = l["pat"]["pats"]
+        if len(ps) == 2 and all(q.get("k") == "PBind" for q in ps):
+            roles[ps[0]["id"]] = 0
+            roles[ps[1]["id"]] = 1
+    return roles
+
+
+def _guards_of(b, marker):
+    """boolean expressions that decide whether the construct satisfying `marker` is reached: conditions of enclosing ifs
+    (with the branch it sits in), and closure predicates of find/any/position feeding an enclosing `if let` / `match` / `if`"""
+    out = []
+    for node, parents in tast.find_with_parents(b["body"], marker):
+        g = []
+        for a in parents:
+            if a.get("k") == "If":
+                in_then = tast.contains(a["then"], lambda z: z is node)
+                in_else = a.get("else") is not None and tast.contains(a["else"], lambda z: z is node)
+                if not (in_then or in_else):
+                    continue
+                c = a["cond"]
+                scr = c.get("init") if c.get("k") == "LetExpr" else c
+                its = tast.find(scr, lambda z: z.get("k") == "MethodCall" and z.get("name") in ("find", "any", "position") and z["args"] and z["args"][0].get("k") == "Closure")
+                if its:
+                    g.append((its[0]["args"][0]["body"], in_then, its[0]["args"][0]))
+                elif c.get("k") != "LetExpr":
+                    g.append((c, in_then, None))
+            if a.get("k") == "Match":
+                its = tast.find(a["scrut"], lambda z: z.get("k") == "MethodCall" and z.get("name") in ("find", "any", "position") and z["args"] and z["args"][0].get("k") == "Closure")
+                for arm in a["arms"]:
+                    if tast.contains(arm["body"], lambda z: z is node) and its:
+                        some = "Some" in (arm["pat"].get("def") or arm["pat"].get("ctor_of") or "") or arm["pat"].get("k") == "PTupleStruct"
+                        g.append((its[0]["args"][0]["body"], some, its[0]["args"][0]))
+        out.append((node, g))
+    return out
+
+
 def r_sol_errmap(rep, f):
     for name in ("sol", "sol_many"):
         fn = SOLN + name
@@ -20,65 +145,129 @@ def r_sol_errmap(rep, f):
             continue
         rep.fn(fn)
         probs = []
-        # (1) None -> NotEnabled : `.ok_or(..NotEnabled..)` applied to the continuous_sol field
+        unknown = []
+        # (1) None -> NotEnabled: ok_or(NotEnabled) on the continuous_sol field, or NotEnabled built in the None/else branch of a test of that field
+        is_ne = lambda q: (q.get("def") or "") == ERRI + "NotEnabled"
+        is_field = lambda q: q.get("k") == "Field" and q.get("name") == "continuous_sol"
         oks = tast.find(b["body"], lambda z: z.get("k") == "MethodCall" and z.get("name") in ("ok_or", "ok_or_else"))
-        ne = [c for c in oks if tast.contains(c["recv"], lambda q: q.get("k") == "Field" and q.get("name") == "continuous_sol")
-              and tast.contains(c["args"][0], lambda q: (q.get("def") or "") == ERRI + "NotEnabled")]
+        ne = [c for c in oks if tast.contains(c["recv"], is_field) and tast.contains(c["args"][0], is_ne)]
+        if not ne:
+            for node, parents in tast.find_with_parents(b["body"], is_ne):
+                for a in parents:
+                    if a.get("k") == "Match" and tast.contains(a["scrut"], is_field):
+                        ne.append(a)
+                    if a.get("k") == "If" and tast.contains(a["cond"], is_field):
+                        ne.append(a)
+                    if a.get("k") == "Let" and a.get("els") is not None and tast.contains(a.get("init") or {}, is_field):
+                        ne.append(a)
         if not ne:
             probs.append("a missing continuous solution is not mapped to InterpolationError::NotEnabled")
-        # (2) out of span -> OutOfRange under `t < lo || t > hi` with (lo, hi) = (min, max) of the span ends
-        rets = [r for r in tast.find_with_parents(b["body"], lambda z: z.get("k") == "Return")
-                if tast.contains(r[0], lambda q: (q.get("def") or "").startswith(ERRI + "OutOfRange"))]
-        ok2 = False
-        for r, parents in rets:
-            ifs = [p for p in parents if p.get("k") == "If" and tast.contains(p["then"], lambda z: z is r)]
-            if not ifs:
-                continue
-            c = ifs[-1]["cond"]
-            if c.get("k") == "Binary" and c["op"] == "Or":
-                l, rr = c["l"], c["r"]
-                ok2 = (l.get("k") == "Binary" and l["op"] == "Lt" and rr.get("k") == "Binary" and rr["op"] == "Gt") or \
-                      (l.get("k") == "Binary" and l["op"] == "Gt" and rr.get("k") == "Binary" and rr["op"] == "Lt")
-        if not ok2:
-            probs.append("times outside the covered span are not rejected with OutOfRange under `t < lo || t > hi`")
-        mm = tast.find(b["body"], lambda z: z.get("k") == "Let" and z["pat"].get("k") == "PTuple" and z.get("init") is not None and z["init"].get("k") == "Tuple"
-                       and tast.contains(z["init"], lambda q: q.get("k") == "MethodCall" and q.get("name") == "min")
-                       and tast.contains(z["init"], lambda q: q.get("k") == "MethodCall" and q.get("name") == "max"))
-        if not mm:
-            probs.append("the span bounds are not normalised with min/max (backward runs have start > end)")
-        elif not (tast.contains(mm[0]["init"]["elems"][0], lambda q: q.get("k") == "MethodCall" and q.get("name") == "min")
-                  and tast.contains(mm[0]["init"]["elems"][1], lambda q: q.get("k") == "MethodCall" and q.get("name") == "max")):
-            probs.append("(lo, hi) is not (min, max) of the span ends")
+        # (2) t outside [min, max] of the span ends <=> OutOfRange, for both orientations of the span: the guard that controls
+        #     the early OutOfRange return is evaluated at t in {below, lower end, inside, upper end, above}
+        roles = _span_roles(b["body"])
+        guards = [(n_, g) for n_, g in _guards_of(b, lambda z: z.get("k") == "Return" and tast.contains(z, lambda q: (q.get("def") or "").startswith(ERRI + "OutOfRange"))) if g]
+        if not guards:
+            probs.append("no early return of OutOfRange guarded by a range test of t")
+        for node, gl in guards[:1]:
+            cond, positive, closure = gl[-1]
+            bad = None
+            for ends in ((0.0, 1.0), (1.0, 0.0)):
+                for tv in (-1.0, 0.0, 0.5, 1.0, 2.0):
+                    def leaf(e, ends=ends, tv=tv):
+                        if e.get("k") == "Path" and e.get("res") == "local":
+                            if e["id"] in roles:
+                                return ends[roles[e["id"]]]
+                            if NumEval(b["body"], lambda z: None).let_of(e["id"]) is None and (e.get("ty") or "").lstrip("&") == "f64":
+                                return tv
+                        return None
+                    try:
+                        v = NumEval(b["body"], leaf).ev(cond)
+                    except _NoEval as ex:
+                        unknown.append("range test not evaluated (%s)" % ex)
+                        v = None
+                    if v is None:
+                        continue
+                    rejected = bool(v) == positive
+                    want = tv < 0.0 or tv > 1.0
+                    if rejected != want and bad is None:
+                        bad = "span ends (%g, %g), t = %g: %s" % (ends[0], ends[1], tv, "rejected although inside the span" if rejected else "accepted although outside the span")
+            if bad:
+                probs.append("times outside the covered span are not rejected exactly (%s)" % bad)
         if probs:
             rep.violation("R-SOL-ERRMAP", key, "; ".join(probs), b.get("sp"))
+        elif unknown:
+            rep.inconc("R-SOL-ERRMAP", key, unknown[0], b.get("sp"))
         else:
-            rep.ok("R-SOL-ERRMAP", key, "None -> NotEnabled; t outside [min,max] of the span -> OutOfRange")
+            rep.ok("R-SOL-ERRMAP", key, "None -> NotEnabled; t outside [min,max] of the span -> OutOfRange (10 model points, both span orientations)")
     # (3) continuous_sol is Some iff options.dense_output at every Solution construction in solve_ivp
     sv = f.bodies.get("solve::solve_ivp::solve_ivp")
     if sv is None:
         return
     lits = tast.find(sv["body"], lambda z: z.get("k") == "Struct" and z.get("def") == "solve::solution::Solution")
     n = 0
-    for j, s in enumerate(lits):
-        fl = {x["name"]: x["e"] for x in s["fields"]}
+
+    def some_none(e, dense, at_line, depth=0):
+        """'Some' | 'None' the expression evaluates to when options.dense_output == dense"""
+        if e is None or depth > 20:
+            raise _NoEval("depth")
+        k = e.get("k")
+        if k == "Block":
+            return some_none(e.get("tail") if e.get("tail") is not None else e.get("expr"), dense, at_line, depth + 1)
+        if k == "Call" and (e.get("def") or "").endswith("Some"):
+            return "Some"
+        if k == "Path" and (e.get("def") or "").endswith("None"):
+            return "None"
+        if k == "Path" and e.get("res") == "local":
+            lets = tast.find(sv["body"], lambda z: z.get("k") == "Let" and z["pat"].get("id") == e.get("id") and z.get("init") is not None)
+            if not lets:
+                raise _NoEval("local")
+            return some_none(lets[-1]["init"], dense, at_line, depth + 1)
+        if k == "If":
+            c = boolv(e["cond"], dense, depth + 1)
+            return some_none(e["then"] if c else e.get("else"), dense, at_line, depth + 1)
+        if k == "Match":
+            c = boolv(e["scrut"], dense, depth + 1)
+            for arm in e["arms"]:
+                pt = arm["pat"]
+                if pt.get("k") in ("PWild", "PBind") or (pt.get("k") == "PLit" and str(pt.get("v")).lower() == str(c).lower()):
+                    return some_none(arm["body"], dense, at_line, depth + 1)
+            raise _NoEval("match")
+        if k == "MethodCall" and e.get("name") in ("then", "then_some") and len(e["args"]) == 1:
+            return "Some" if boolv(e["recv"], dense, depth + 1) else "None"
+        if k == "MethodCall" and e.get("name") in ("filter",) and len(e["args"]) == 1:
+            raise _NoEval("filter")
+        raise _NoEval("node %s" % k)
+
+    def boolv(e, dense, depth=0):
+        k = e.get("k")
+        if k == "Field" and (e.get("fdef") or "").endswith("Options::dense_output"):
+            return dense
+        if k == "Unary" and e["op"] == "Not":
+            return not boolv(e["e"], dense, depth + 1)
+        if k == "Unary" and e["op"] == "Deref":
+            return boolv(e["e"], dense, depth + 1)
+        if k == "Path" and e.get("res") == "local":
+            lets = tast.find(sv["body"], lambda z: z.get("k") == "Let" and z["pat"].get("id") == e.get("id") and z.get("init") is not None)
+            if len(lets) == 1:
+                return boolv(lets[0]["init"], dense, depth + 1)
+        if k == "Lit" and e.get("lk") == "Bool":
+            return bool(e["v"])
+        raise _NoEval("bool %s" % k)
+
+    for j, s_ in enumerate(lits):
+        fl = {x["name"]: x["e"] for x in s_["fields"]}
         e = fl.get("continuous_sol")
         key = "R-SOL-ERRMAP:solve_ivp:literal%d" % (j + 1)
-        src = e
-        if e is not None and e.get("k") == "Path" and e.get("res") == "local":
-            lets = [l for l in tast.find(sv["body"], lambda z: z.get("k") == "Let" and z["pat"].get("id") == e.get("id"))]
-            # several lets shadow each other by scope: take the one in the same block chain = nearest preceding by span line
-            src = lets[-1]["init"] if lets else e
-            for l in lets:
-                if l.get("sp", "").split(":")[1].isdigit() and int(l["sp"].split(":")[1]) <= int(s["sp"].split(":")[1]):
-                    src = l["init"]
-        ok = src is not None and src.get("k") == "If" and tast.contains(src["cond"], lambda q: q.get("k") == "Field" and (q.get("fdef") or "").endswith("Options::dense_output")) \
-            and tast.contains(src["then"], lambda q: q.get("k") == "Call" and (q.get("def") or "").endswith("Some")) \
-            and src.get("else") is not None and tast.contains(src["else"], lambda q: q.get("k") == "Path" and (q.get("def") or "").endswith("None"))
         n += 1
-        if ok:
-            rep.ok("R-SOL-ERRMAP", key, "continuous_sol = if options.dense_output { Some(..) } else { None }")
+        try:
+            got = (some_none(e, True, None), some_none(e, False, None))
+        except _NoEval as ex:
+            rep.inconc("R-SOL-ERRMAP", key, "continuous_sol of this Solution not evaluated (%s)" % ex, s_.get("sp"))
+            continue
+        if got == ("Some", "None"):
+            rep.ok("R-SOL-ERRMAP", key, "continuous_sol is Some exactly when options.dense_output")
         else:
-            rep.violation("R-SOL-ERRMAP", key, "a Solution is built whose continuous_sol is not `Some` exactly when dense_output was requested", s.get("sp"))
+            rep.violation("R-SOL-ERRMAP", key, "a Solution is built whose continuous_sol is %s with dense_output on and %s with it off" % got, s_.get("sp"))
     if n < 3:
         rep.inconc("R-SOL-ERRMAP", "R-SOL-ERRMAP:solve_ivp:floor", "only %d Solution literals" % n)
 
@@ -208,6 +397,51 @@ def r_seg_keep(rep, f):
         rep.ok(key, key, "stored under %s only, before any return" % allowed)
 
 
+def r_seg_filter(rep, f):
+    """ContinuousOutput::from_segments keeps every segment it is given; the only segments it may drop are the
+    degenerate ones with h == 0 (a predicate `h != 0` / `|h| > 0`)"""
+    fn = CONT + "from_segments"
+    b = f.bodies.get(fn)
+    key = "R-SEG-KEEP:from_segments"
+    if b is None:
+        rep.inconc("R-SEG-KEEP", key, "%s not found" % fn)
+        return
+    rep.fn(fn)
+    droppers = tast.find(b["body"], lambda z: z.get("k") == "MethodCall" and z.get("name") in
+                         ("filter", "filter_map", "take", "skip", "step_by", "take_while", "skip_while", "retain", "dedup", "dedup_by", "dedup_by_key", "truncate", "pop", "remove", "drain"))
+    conds = tast.find(b["body"], lambda z: z.get("k") in ("If", "Match") and tast.contains(z, lambda q: q.get("k") in ("Continue", "Break", "Return")))
+    bad = []
+    for d in droppers:
+        if d.get("name") != "filter" or not d["args"] or d["args"][0].get("k") != "Closure":
+            bad.append(tast.render(d)[:80])
+            continue
+        c = d["args"][0]["body"]
+        while c.get("k") == "Block" and not c.get("stmts") and c.get("expr") is not None:
+            c = c["expr"]
+
+        def zero(e):
+            return e.get("k") == "Lit" and e.get("lk") in ("Float", "Int") and float(e.get("v")) == 0.0
+
+        def plain(e):
+            while e.get("k") == "Unary" and e.get("op") == "Deref":
+                e = e["e"]
+            return e.get("k") == "Path" and e.get("res") == "local"
+
+        def absval(e):
+            return e.get("k") == "MethodCall" and e.get("name") == "abs" and plain(e["recv"])
+        ok = c.get("k") == "Binary" and (
+            (c["op"] == "Ne" and ((plain(c["l"]) and zero(c["r"])) or (plain(c["r"]) and zero(c["l"]))))
+            or (c["op"] == "Gt" and absval(c["l"]) and zero(c["r"])) or (c["op"] == "Lt" and zero(c["l"]) and absval(c["r"])))
+        if not ok:
+            bad.append("filter(%s)" % tast.render(c)[:80])
+    if conds:
+        bad.append("conditional skip: %s" % tast.render(conds[0].get("cond") or conds[0].get("scrut"))[:60])
+    if bad:
+        rep.violation("R-SEG-KEEP", key, "from_segments can drop a non-degenerate segment (%s): a real accepted step would be missing from sol(t), shrinking the covered span or leaving a gap" % bad[:2], (droppers or conds)[0].get("sp"))
+    else:
+        rep.ok("R-SEG-KEEP", key, "every segment is kept except those with h == 0 (%d filter(s))" % len(droppers))
+
+
 def _idents(e):
     out = []
     tast.walk(e, lambda n, p: out.append(n.get("name")) if n.get("k") in ("Path", "Field") and n.get("name") else None)
@@ -215,7 +449,9 @@ def _idents(e):
 
 
 def r_seg_lookup(rep, f):
-    """segment lookup is direction-agnostic: [min(xold, xold+h) - tol, max(..) + tol]"""
+    """segment lookup is direction-agnostic: a time inside a segment is found whether the segment was produced by a
+    forward (h > 0) or a backward (h < 0) step, a time well outside is not. The membership test that guards `return
+    Some(seg)` is evaluated at model points for both signs of h (finite abstract evaluation)"""
     for name in ("find_segment", "find_segment_extrapolate"):
         fn = CONT + name
         b = f.bodies.get(fn)
@@ -223,21 +459,40 @@ def r_seg_lookup(rep, f):
         if b is None:
             rep.inconc("R-SEG-LOOKUP", key, "not found")
             continue
+        rep.fn(fn)
         loops = tast.find(b["body"], lambda z: z.get("k") == "For")
-        ok = False
+        tested = 0
+        bad = None
+        unknown = None
         for lp in loops:
-            lets = {l["pat"].get("name"): l["init"] for l in tast.find(lp["body"], lambda z: z.get("k") == "Let" and z.get("init") is not None)}
-            mins = [n for n, e in lets.items() if e.get("k") == "MethodCall" and e.get("name") == "min"]
-            maxs = [n for n, e in lets.items() if e.get("k") == "MethodCall" and e.get("name") == "max"]
-            ifs = tast.find(lp["body"], lambda z: z.get("k") == "If" and z["cond"].get("k") == "Binary" and z["cond"]["op"] == "And")
-            for i_ in ifs:
-                l, r = i_["cond"]["l"], i_["cond"]["r"]
-                if l.get("k") == "Binary" and l["op"] == "Ge" and r.get("k") == "Binary" and r["op"] == "Le" and mins and maxs:
-                    lo_ok = tast.contains(l["r"], lambda q: q.get("k") == "Path" and q.get("name") in mins) and tast.contains(l["r"], lambda q: q.get("k") == "Binary" and q["op"] == "Sub")
-                    hi_ok = tast.contains(r["r"], lambda q: q.get("k") == "Path" and q.get("name") in maxs) and tast.contains(r["r"], lambda q: q.get("k") == "Binary" and q["op"] == "Add")
-                    same = lets[mins[0]]["recv"] and tast.render(lets[mins[0]]["recv"]) == tast.render(lets[maxs[0]]["recv"]) and tast.render(lets[mins[0]]["args"][0]) == tast.render(lets[maxs[0]]["args"][0])
-                    ok = lo_ok and hi_ok and same
-        if ok:
-            rep.ok("R-SEG-LOOKUP", key, "t in [min(xold, xold+h) - tol, max(xold, xold+h) + tol]")
+            for i_ in tast.find(lp["body"], lambda z: z.get("k") == "If" and tast.contains(z["then"], lambda q: q.get("k") == "Return")):
+                for xold, h in ((0.0, 1.0), (1.0, -1.0)):
+                    for tv, want in ((-1.0, False), (0.0, True), (0.5, True), (1.0, True), (2.0, False)):
+                        def leaf(e, xold=xold, h=h, tv=tv):
+                            if e.get("k") == "Field" and (e.get("fdef") or "").endswith("DenseSegment::xold"):
+                                return xold
+                            if e.get("k") == "Field" and (e.get("fdef") or "").endswith("DenseSegment::h"):
+                                return h
+                            if e.get("k") == "Path" and e.get("res") == "local" and e.get("id") in pids:
+                                return tv
+                            return None
+                        pids = {p_["id"] for p_ in b.get("params", []) if p_.get("k") == "PBind" and p_.get("ty") == "f64"}
+                        try:
+                            v = bool(NumEval(b["body"], leaf).ev(i_["cond"]))
+                        except _NoEval as ex:
+                            unknown = "membership test not evaluated (%s)" % ex
+                            continue
+                        tested += 1
+                        if v != want and bad is None:
+                            bad = "segment with xold = %g, h = %g: t = %g is %s" % (xold, h, tv, "not found although inside the segment" if want else "matched although far outside")
+        delegates = tast.find(b["body"], lambda z: z.get("k") == "MethodCall" and (z.get("def") or "") == CONT + "find_segment") if name != "find_segment" else []
+        if bad:
+            rep.violation("R-SEG-LOOKUP", key, "the segment membership test depends on the direction of integration (%s)" % bad, b.get("sp"))
+        elif tested:
+            rep.ok("R-SEG-LOOKUP", key, "membership test evaluated at %d model points (h > 0 and h < 0): inside => found, far outside => not" % tested)
+        elif delegates:
+            rep.ok("R-SEG-LOOKUP", key, "delegates the membership test to find_segment")
+        elif unknown:
+            rep.inconc("R-SEG-LOOKUP", key, unknown, b.get("sp"))
         else:
-            rep.violation("R-SEG-LOOKUP", key, "the segment test is not the direction-agnostic window [min(xold,xold+h) - tol, max(xold,xold+h) + tol]", b.get("sp"))
+            rep.violation("R-SEG-LOOKUP", key, "no per-segment membership test guarding the returned segment", b.get("sp"))
